@@ -239,6 +239,10 @@ class PeeweeStorage(AbstractStorage):
             raise ValueError("Bucket did not exist, could not get metadata")
 
     def insert_one(self, bucket_id: str, event: Event) -> Event:
+        if event.id is not None and self._get_event(bucket_id, event.id) is None:
+            # The id is not an event of this bucket: nothing to update here, and
+            # saving it would move another bucket's event into this bucket
+            return event
         e = EventModel.from_event(self.bucket_keys[bucket_id], event)
         e.save()
         event.id = e.id
